@@ -345,7 +345,25 @@ func drawC06(t *rapid.T) c06Case {
 	if gen.Uniform(t, "headerVariant", 8) == 0 {
 		fs := ref.FileSpec{Schema: []byte(ref.Render(w.Schema, nil)), Codec: "snappy"}
 		copy(fs.Sync[:], w.Sync)
-		switch gen.Uniform(t, "variant", 4) {
+		switch gen.Uniform(t, "variant", 5) {
+		case 4:
+			// a snappy block that declares a huge decoded length in its own header
+			big := []uint64{1 << 26, 1 << 28, 1 << 31, 1<<32 - 1, 1 << 24}[gen.Uniform(t, "declared", 5)]
+			var body []byte
+			for v := big; ; v >>= 7 {
+				if v < 0x80 {
+					body = append(body, byte(v))
+					break
+				}
+				body = append(body, byte(v)|0x80)
+			}
+			body = append(body, 0x00, 'x', 0x00, 0x00, 0x00, 0x00) // one literal byte, then a CRC
+			out, l2, _ := ref.WriteFile(fs)
+			out = append(out, ref.AppendLong(nil, 1)...)
+			out = append(out, ref.AppendLong(nil, int64(len(body)))...)
+			out = append(out, body...)
+			out = append(out, l2.Sync[:]...)
+			c.Data, c.What = out, fmt.Sprintf("snappy block of %d bytes declaring a decoded length of %d", len(body), big)
 		case 0:
 			// a snappy block shorter than its checksum
 			n := gen.Uniform(t, "shortLen", 4)
